@@ -55,6 +55,11 @@ fn c15_alphabet(cfg: &NodeCfg) -> Vec<Op> {
 
 fn c16_alphabet(cfg: &NodeCfg) -> Vec<Op> {
     let mut a = vec![Op::Send(1), Op::Send(3), Op::Send2(2), Op::Flush, Op::BgSave, Op::Restart];
+    if !cfg.dedup && cfg.expiry_us == 0 {
+        // a partition / a topic with several segments that comes and goes: every figure must be back where it was
+        a.push(Op::PartitionComesAndGoes);
+        a.push(Op::TopicComesAndGoes);
+    }
     if cfg.dedup {
         a.push(Op::SendIds(vec![1, 2, 1]));
         a.push(Op::SendIds(vec![2, 3]));
@@ -164,7 +169,8 @@ pub fn plan(prop: &str, tier: &str) -> (PropMeta, Vec<Job>) {
         }
         "C16" => {
             let mut cfgs = if quick {
-                corner_cfgs(&[2], &[SEG_SMALL], &[false], &[false, true])
+                // the index cache does not take part in any figure: quick keeps it on
+                corner_cfgs(&[2], &[SEG_SMALL], &[false], &[false, true]).into_iter().filter(|c| c.cache_idx).collect()
             } else {
                 corner_cfgs(&[1, 2, 1000], &[SEG_SMALL, 1_000_000], &[false], &[false, true])
             };
@@ -258,6 +264,7 @@ fn shape(hist: &[Op]) -> String {
         .map(|o| match o {
             Op::Send(_) | Op::SendIds(_) | Op::Send2(_) => "S",
             Op::SendOther(_) => "X",
+            Op::PartitionComesAndGoes | Op::TopicComesAndGoes => "C",
             Op::Flush | Op::BgSave => "F",
             Op::Restart | Op::RestartNoDrain => "R",
             Op::Purge => "P",
